@@ -169,11 +169,13 @@ class eap(packet_base):
         if self.code == self.REQUEST_CODE:
             (self.type,) \
                 = struct.unpack('!B', raw[self.MIN_LEN:self.MIN_LEN + 1 ])
-            # not yet implemented
+            # not yet implemented -- keep type and type-data as raw payload
+            self.next = raw[self.MIN_LEN:self.length]
         elif self.code == self.RESPONSE_CODE:
             (self.type,) \
                 = struct.unpack('!B', raw[self.MIN_LEN:self.MIN_LEN + 1 ])
-            # not yet implemented
+            # not yet implemented -- keep type and type-data as raw payload
+            self.next = raw[self.MIN_LEN:self.length]
         elif self.code == self.SUCCESS_CODE:
             self.next = None    # Success packets have no payload
         elif self.code == self.REQUEST_CODE:
